@@ -1,7 +1,7 @@
 (* Extraction of the executable model to OCaml.  ExtrOcamlBasic only: bool, option, list,
    prod, unit, sumbool map to OCaml's; N / positive / nat / Z stay inductive. *)
 From Coq Require Import Extraction ExtrOcamlBasic ZArith.
-From QwtModel Require Import Outcome ListX Seq QVec RSQ QWT Words.
+From QwtModel Require Import Outcome ListX Seq QVec RSQ QWT Words BitVec RSBin DArrayM.
 Extraction Language OCaml.
 Extraction "model.ml"
   N.add N.mul N.sub N.div N.modulo N.eqb N.ltb N.leb N.of_nat N.to_nat N.div_eucl N.pow
@@ -13,4 +13,10 @@ Extraction "model.ml"
   qwt_new qwt_default qwt_len qwt_is_empty qwt_sigma qwt_rank qwt_rank_unchecked qwt_get qwt_get_unchecked
   qwt_select qwt_select_unchecked qwt_rank_prefetch qwt_rank_prefetch_unchecked
   select_in_word select_in_word_u128 popcnt_wide msb_w stable_partition_of_4
-  qline_set_symbol qline_get_unchecked qline_rank_unchecked pack_qline.
+  qline_set_symbol qline_get_unchecked qline_rank_unchecked pack_qline
+  bv_empty bv_len bv_is_empty bv_count_ones bv_count_zeros bv_get bv_get_unchecked bv_get_bits bv_get_bits_unchecked bv_get_word
+  bvm_push bvm_append_bits bvm_extend_with_zeros bvm_set bvm_set_bits bvm_extend_bools bvm_extend_positions
+  bv_from_bools bv_from_positions bvm_with_zeros bvit_next bvit_len bvinto_next pi_new pi_with_pos pi_next pi_collect bv_abs
+  rsn_new rsn_rank1 rsn_rank0 rsn_rank1_unchecked rsn_n_ones rsn_n_zeros rsn_select1 rsn_select0 rsn_select_unchecked rsn_get
+  rsw_new rsw_rank1 rsw_rank0 rsw_rank1_unchecked rsw_rank0_unchecked rsw_n_ones rsw_n_zeros_q rsw_select1 rsw_select0 rsw_select_unchecked rsw_get
+  da_new da_select1 da_select0 da_len da_count_ones da_count_zeros da_get da_from_positions da_from_bools.
